@@ -546,7 +546,13 @@ func ExecE2E(c E2ECase, bound time.Duration) (*E2EOutcome, error) {
 		ctx, cancel := context.WithTimeout(context.Background(), bound)
 		recvOne := func(receive func(context.Context, interface{}) (uint64, error), e ExpFrame, k int) error {
 			var raw json.RawMessage
-			fl, rerr := receive(ctx, &raw)
+			var target interface{} = &raw
+			if e.Kind == "error" && (si+k)%2 == 0 {
+				// an error reply's parameters are not the call's output: a typed output value that they do not fit
+				// (every member an int) must not get in the way of the error
+				target = &map[string]int{}
+			}
+			fl, rerr := receive(ctx, target)
 			out.Comparisons++
 			if isTimeoutErr(rerr) {
 				return fmt.Errorf("%sreceive %d did not return within %v (expected %s)", pre, k, bound, describeExp([]ExpFrame{e}))
